@@ -3,6 +3,7 @@
 package zapcore
 
 import (
+	"encoding/base64"
 	"math"
 	"time"
 
@@ -178,3 +179,74 @@ func VC02TimeFormulas() {
 }
 
 var _ = math.MaxFloat64
+
+// Long values: lengths around powers of two, where chunked or buffered implementations change behaviour.
+//
+//verif: prop=C02 bounds="one Binary, ByteString or String field (also as array element) of length in {0,1,2,3,4,63,64,65,255,256,257,258} (thorough: up to 1025): concrete pattern bytes, for the string kinds with one symbolic byte at the first, middle or last position; the decoded JSON string equals base64(payload) for Binary (reference: encoding/base64 itself, trusted) and the payload (invalid UTF-8 replaced) for the others"
+func VC02LongValues() {
+	lengths := []int{0, 1, 2, 3, 4, 63, 64, 65, 255, 256, 257, 258, 511, 512, 513, 1023, 1024, 1025}
+	if vrt.Tier() == 0 {
+		lengths = lengths[:12]
+	}
+	n := lengths[vrt.Choice("len", len(lengths))]
+	p := make([]byte, n)
+	for i := range p {
+		p[i] = byte('a' + i%23)
+	}
+	kind := vrt.Choice("kind", 4)
+	if n > 0 && kind != 0 {
+		// (a Binary payload stays concrete: its reference is encoding/base64 itself, computed natively)
+		pos := []int{0, n / 2, n - 1}[vrt.Choice("pos", 3)]
+		p[pos] = vrt.Byte("b")
+	}
+	var f Field
+	switch kind {
+	case 0:
+		f = Field{Key: "k", Type: BinaryType, Interface: p}
+	case 1:
+		f = Field{Key: "k", Type: ByteStringType, Interface: p}
+	case 2:
+		f = Field{Key: "k", Type: StringType, String: string(p)}
+	case 3:
+		f = Field{Key: "k", Type: ArrayMarshalerType, Interface: vByteStringsArr{p}}
+	}
+	enc := NewJSONEncoder(EncoderConfig{LineEnding: "\n"})
+	buf, err := enc.EncodeEntry(Entry{}, []Field{{Key: "before", Type: Int64Type, Integer: 1}, f, {Key: "after", Type: Int64Type, Integer: 2}})
+	vrt.Assert("encode-returns-nil", err == nil)
+	v, perr := vrt.ParseJSONObjectLine(buf.Bytes(), "\n", false)
+	if perr != "" {
+		vrt.Tag("parse=" + perr)
+		vrt.Fail("one-valid-json-object-then-line-ending")
+		return
+	}
+	got := v.Get("k")
+	if kind == 3 {
+		if got == nil || got.Kind != vrt.JArr || len(got.Arr) != 1 {
+			vrt.Fail("array-with-one-element")
+			return
+		}
+		got = got.Arr[0]
+	}
+	if got == nil || got.Kind != vrt.JStr {
+		vrt.Fail("value-is-a-string")
+		return
+	}
+	var want []byte
+	if kind == 0 {
+		want = []byte(base64.StdEncoding.EncodeToString(p))
+	} else {
+		want = vrt.ReplaceInvalidUTF8(p)
+	}
+	vrt.Assert("decoded-value-is-exactly-the-logged-value", string(got.Str) == string(want))
+	vrt.Assert("siblings-intact", v.Get("before") != nil && v.Get("after") != nil)
+	vrt.Cover("done")
+}
+
+type vByteStringsArr [][]byte
+
+func (a vByteStringsArr) MarshalLogArray(enc ArrayEncoder) error {
+	for _, b := range a {
+		enc.AppendByteString(b)
+	}
+	return nil
+}
